@@ -1056,13 +1056,15 @@ fn step_vop_inner(ob: &mut ObservableVector<Tracked>, vop: &VOp, mon: &mut Mon, 
                 }
                 for d in msg {
                     if let Err(e) = d.checked_apply(&mut r) {
-                        return div("C05", format!("diff {} of {} is inapplicable: {e}", d.show(), vop.show()));
+                        // (the reference subscriber is a real batched stream that never falls behind: an
+                        // inapplicable diff, or Pending with a replica that is not the contents, is C06's too)
+                        return div("C05|C06", format!("diff {} of {} is inapplicable: {e}", d.show(), vop.show()));
                     }
                 }
             }
             if vals(&r) != after {
                 return div(
-                    "C05",
+                    "C05|C06",
                     format!("{}: before {before_v:?} + diffs {:?} = {:?}, contents {after:?}", vop.show(), new.iter().map(|m| show_diffs(m)).collect::<Vec<_>>(), vals(&r)),
                 );
             }
